@@ -7,7 +7,7 @@
     [Inv] = [InvS] /\ [InvD]. *)
 From Coq Require Import Ascii String List Bool PArith NArith ZArith QArith FMapPositive Permutation.
 From PTBase Require Import Exn PyStr.
-From P Require Import Assoc GeoState GeoEdit GeoStep Inv InvNames InvSimple Sets InvCol InvConn InvDel InvRefresh InvRename Reach Witness.
+From P Require Import Assoc GeoState GeoEdit GeoEdit2 GeoStep Inv InvNames InvSimple Sets InvCol InvConn InvDel InvRefresh InvRename InvCompound Reach Witness.
 Import ListNotations.
 Open Scope list_scope.
 
@@ -101,6 +101,46 @@ Print Assumptions setup_block_name_index_preserves.
 Theorem setup_block_connection_name_index_preserves : forall g g', Inv g -> setup_block_connection_name_index g = Ok g' -> Inv g'.
 Proof. exact setup_block_connection_name_index_inv. Qed.
 Print Assumptions setup_block_connection_name_index_preserves.
+
+(** ** compound operations *)
+(** rebuilding the layers (copy_layers_from, refine_layers) re-establishes the whole invariant from any consistent
+    object graph with exact neighbour sets: no precondition on layer counts or name lists *)
+Theorem copy_layers_from_preserves : forall g lays g', Inv g -> copy_layers_from g lays = Ok g' -> Inv g'.
+Proof. exact copy_layers_from_inv. Qed.
+Print Assumptions copy_layers_from_preserves.
+Theorem copy_layers_from_reestablishes : forall g lays g', InvS g -> S3b g -> copy_layers_from g lays = Ok g' -> Inv g'.
+Proof. exact copy_layers_from_establishes. Qed.
+Print Assumptions copy_layers_from_reestablishes.
+Theorem refine_layers_preserves : forall g names factor g', Inv g -> refine_layers g names factor = Ok g' -> Inv g'.
+Proof. exact refine_layers_inv. Qed.
+Print Assumptions refine_layers_preserves.
+Theorem refine_layers_reestablishes : forall g names factor g', InvS g -> S3b g -> refine_layers g names factor = Ok g' -> Inv g'.
+Proof. exact refine_layers_establishes. Qed.
+Print Assumptions refine_layers_reestablishes.
+(** rotate: whatever the new positions of the nodes and centres *)
+Theorem rotate_preserves : forall g ps cs g', Inv g -> move_nodes g ps cs = Ok g' -> Inv g'.
+Proof. exact move_nodes_inv. Qed.
+Print Assumptions rotate_preserves.
+(** proved only for part of the invariant (the rest is covered by the correspondence run and the oracle) *)
+Theorem translate_object_graph_partial : forall g dx dy dz, InvS g -> InvS (translate g dx dy dz).
+Proof. exact translate_invS. Qed.
+Print Assumptions translate_object_graph_partial.
+Theorem snap_columns_to_layers_partial : forall g minth names g', InvS g -> S3b g -> snap_columns_to_layers g minth names = Ok g' ->
+  InvS g' /\ S3b g' /\ (qltb 0 minth = true -> S6 g').
+Proof. exact InvCompound.snap_columns_to_layers_partial. Qed.
+Print Assumptions snap_columns_to_layers_partial.
+Theorem snap_columns_to_nearest_layers_partial : forall g names g', InvS g -> S3b g -> snap_columns_to_nearest_layers g names = Ok g' ->
+  InvS g' /\ S3b g' /\ S6 g'.
+Proof. exact InvCompound.snap_columns_to_nearest_layers_partial. Qed.
+Print Assumptions snap_columns_to_nearest_layers_partial.
+Theorem check_fix_object_graph_partial : forall g hm hbad g', fx_nbr (fx g) = false -> InvS g -> conns_ok g hm -> check_fix g hm hbad = Ok g' -> InvS g'.
+Proof. exact check_fix_invS. Qed.
+Print Assumptions check_fix_object_graph_partial.
+Theorem reduce_object_graph_partial : forall g names hm hbad g', fx_nbr (fx g) = false -> InvS g ->
+  (forall g1, delete_columns g (map (cn g) (filter (fun c => negb (existsb (fun n => match cget g n with Some x => Pos.eqb x c | None => false end) names)) (clist g))) = Ok g1 -> conns_ok g1 hm) ->
+  reduce g names hm hbad = Ok g' -> InvS g'.
+Proof. exact reduce_invS. Qed.
+Print Assumptions reduce_object_graph_partial.
 
 (** any edit, then any finite sequence of edits *)
 Theorem geo_inv_step : forall g o g', Inv g -> pre g o -> step g o = Ok g' -> Inv g'.
